@@ -1,11 +1,12 @@
 (* AntsPrompt.v -- the "all handlers are prompt" hypothesis of property C08, as executable
    boolean predicates over an event history of the ants pool model (models/Ants.v).
 
-   A handler invocation is PROMPT when it returns no later than max(start, deadline of the
-   attempt's context ctx1): it either finishes within the attempt's timeout or returns as soon
-   as ctx1 is cancelled.  The return instant of an invocation is fixed by the model when the
+   A handler invocation is PROMPT when it returns no later than max(start, instant at which the
+   attempt's context ctx1 is done): it either finishes before ctx1 is done (by its timeout or by
+   the cancellation of the dispatchers' parent context) or returns as soon as ctx1 is done.  The return instant of an invocation is fixed by the model when the
    inner worker enters the handler (event AnStart: [an_due b start d]), so promptness of every
-   invocation of a history is a check at its AnStart events.
+   invocation of a history is a check at its AnStart events, plus a check of the running
+   invocations at an AnParentCancel event (the only event that moves a done-instant).
 
    Definitions only; proofs are in proofs/AntsPromptProofs.v. *)
 From Got Require Import Base Ants.
@@ -20,6 +21,16 @@ Definition an_start_prompt (s : an_state) (e : an_event) : bool :=
       | (_, _, d) :: _ =>
           an_due (an_beh_of (at_opts (an_tk s k)) a) (an_now s) d <=? Z.max (an_now s) d
       | [] => true
+      end
+  | AnParentCancel =>
+      (* cancel() of the dispatchers' parent context makes every ctx1 done now: an invocation that is
+         still running is prompt only if it returns now (it honours its context or is due anyway) *)
+      match an_pc s with
+      | Some _ => true
+      | None => forallb (fun sl => match sl with
+                                   | AnRun k a _ r _ => ab_honours (an_beh_of (at_opts (an_tk s k)) a) || (r <=? an_now s)
+                                   | AnPub _ _ _ _ => true
+                                   end) (an_workers s)
       end
   | _ => true
   end.
